@@ -288,8 +288,9 @@ def real_framethreads(line):
 
 def real_frameobs(line):
     """to_bytes() under observation: a trace function (a debugger's log point, a profiler; the same as a signal handler or a
-    monitor thread that prints the frame in flight) evaluates repr(frame), str(frame) and vars(frame) every few lines while
-    the frame is being serialised.  Looking at an object must not change what it does."""
+    monitor thread that prints the frame in flight) evaluates repr(frame), str(frame) and vars(frame) ONCE, at the n-th line
+    executed while the frame is being serialised (a single look: a second one later could put right what the first disturbed).
+    Looking at an object must not change what it does."""
     p = line.split('|')
     cls_, id_, pl, period = int(p[1]), int(p[2]), bytes.fromhex(p[3]), max(1, int(p[4]))
     f = make_frame(cls_, id_)
@@ -299,7 +300,7 @@ def real_frameobs(line):
     def local(frm, event, arg):
         if event == 'line' and not state['busy']:
             state['n'] += 1
-            if state['n'] % period == 0:
+            if state['n'] == period:
                 state['busy'] = True
                 try:
                     repr(f), str(f), repr(vars(f))
@@ -398,9 +399,9 @@ def gen_frame(rng, n, profile):
     lens = list(range(0, 300)) + [510, 511, 512, 513, 999, 1000, 1001, 4095, 4096]
     if not profile.startswith('all-lengths'):
         for ln in (0, 1, 2, 7, 30, 200):
-            for period in (1, 2, 3, 7):
+            for at in sorted({1, 5, 12, 20, 27, 35, 7 * ln // 2 + 20, 7 * ln, 7 * ln + 22, 7 * ln + 30, 7 * ln + 36}):
                 pl = bytes(rng.randrange(256) for _ in range(ln))
-                yield f'frameobs|{rng.randrange(256)}|{rng.randrange(256)}|{pl.hex()}|{period}'
+                yield f'frameobs|{rng.randrange(256)}|{rng.randrange(256)}|{pl.hex()}|{at}'
     if profile.startswith('all-lengths'):
         k, K = map(int, profile.split(':')[1].split('/')) if ':' in profile else (0, 1)
         for ln in range(k, 65536, K):
